@@ -49,6 +49,9 @@
 #include <type_traits>
 #include <vector>
 
+void register_order();   // C17_order.cpp
+void register_records(); // C17_rec.cpp
+
 namespace
 {
 using i128 = __int128;
@@ -711,5 +714,7 @@ int main(int argc, char **argv)
   register_containers();
   register_elem_sums();
   register_elem_containers();
+  register_order();
+  register_records();
   return vrt::run(argc, argv);
 }
